@@ -626,6 +626,28 @@ impl<'a, R: ?Sized + std::io::BufRead> Tokenizer<'a, R> {
         state: &mut TokenParseState,
         terminating_char: char,
         nesting_open: &str,
+        nesting_count: u32,
+    ) -> Result<(), TokenizerError> {
+        // The here-documents pending on the enclosing line are not the nested text's business:
+        // while they are awaited, every token delimited on that line is deferred until after
+        // the here tag, which must not happen to the pieces of this one word.
+        let outer_here_state = std::mem::take(&mut self.cross_state.here_state);
+        let outer_here_tags = std::mem::take(&mut self.cross_state.current_here_tags);
+
+        let result =
+            self.consume_nested_construct_inner(state, terminating_char, nesting_open, nesting_count);
+
+        self.cross_state.here_state = outer_here_state;
+        self.cross_state.current_here_tags = outer_here_tags;
+
+        result
+    }
+
+    fn consume_nested_construct_inner(
+        &mut self,
+        state: &mut TokenParseState,
+        terminating_char: char,
+        nesting_open: &str,
         mut nesting_count: u32,
     ) -> Result<(), TokenizerError> {
         let mut pending_here_doc_tokens = vec![];
@@ -1003,6 +1025,13 @@ impl<'a, R: ?Sized + std::io::BufRead> Tokenizer<'a, R> {
                             let mut pending_here_doc_tokens = vec![];
                             let mut drain_here_doc_tokens = false;
 
+                            // See `consume_nested_construct`: the pieces of this word must not
+                            // be deferred behind a here tag pending on the enclosing line.
+                            let outer_here_state =
+                                std::mem::take(&mut self.cross_state.here_state);
+                            let outer_here_tags =
+                                std::mem::take(&mut self.cross_state.current_here_tags);
+
                             loop {
                                 let cur_token = if drain_here_doc_tokens
                                     && !pending_here_doc_tokens.is_empty()
@@ -1063,6 +1092,9 @@ impl<'a, R: ?Sized + std::io::BufRead> Tokenizer<'a, R> {
                                     _ => (),
                                 }
                             }
+
+                            self.cross_state.here_state = outer_here_state;
+                            self.cross_state.current_here_tags = outer_here_tags;
                         }
                         _ => {
                             // This is either a different character, or else the end of the string.
